@@ -164,6 +164,7 @@ func jsonrtStream(rng *rand.Rand, n int, tier string, out string) (*Summary, err
 			} else {
 				g.pField = 0.45
 			}
+			g.bigBin = i%9 == 5
 			t := g.genTree()
 			cfg := randJcfg(rng)
 			tt := treeTerm(t)
